@@ -212,6 +212,7 @@ type srcInfo struct {
 	validator string   // pkg/validate function named by the check factory ("" for buildUUIDCheck: validate.Regex on the pattern)
 	patternRe string   // regex.<Name> the factory exports
 	uses      []string // what the validator function (transitively, inside pkg/validate) relies on: "regex.X", "net.ParseCIDR", "time.Parse", ...
+	foreign   []string // calls of plain identifiers that are not functions of pkg/validate (builtins, conversions), transitively
 	fp        []string // structure fingerprint of the validator (transitively): every call `x.Sel(...)` and every basic literal
 }
 
@@ -365,6 +366,26 @@ func scanSources(repo string) (map[string]srcInfo, error) {
 		}
 		return out
 	}
+	// calls of a plain identifier that is not a function of pkg/validate: builtins and conversions (len, min, string, ...)
+	var foreignOf func(name string, depth int, seen map[string]bool) []string
+	foreignOf = func(name string, depth int, seen map[string]bool) []string {
+		fd := vfn[name]
+		if fd == nil || seen[name] || depth > 4 {
+			return nil
+		}
+		seen[name] = true
+		var out []string
+		for _, c := range localCalls(fd.Body) {
+			if c == "matchString" {
+				continue
+			}
+			if vfn[c] == nil {
+				out = append(out, c)
+			}
+			out = append(out, foreignOf(c, depth+1, seen)...)
+		}
+		return out
+	}
 	res := map[string]srcInfo{}
 	for _, f := range formats {
 		fd := cfn[f.checkFn]
@@ -388,6 +409,7 @@ func scanSources(repo string) (map[string]srcInfo, error) {
 			sort.Strings(u)
 			si.uses = dedupStrings(u)
 			si.fp = fpOf(si.validator, 0, map[string]bool{})
+			si.foreign = foreignOf(si.validator, 0, map[string]bool{})
 		} else if si.patternRe != "" { // buildUUIDCheck(checkID, regex.X): validate.Regex(v, pattern)
 			si.uses = []string{"regex." + si.patternRe}
 		}
@@ -435,10 +457,68 @@ func (si srcInfo) guards() []string {
 
 // ---- Gen/Regexes.lean ----
 
-func genLean(repo, dir string) error {
+// unclassified says why the translator cannot say what the format's validator does ("" when it can):
+//   - it refers to a name of pkg/regex that is not one of the compiled patterns the harness knows (a constant, a new
+//     pattern, a function) — for every kind of validator;
+//   - a validator that otherwise only matches one regex also calls something else (a builtin such as len, a function
+//     outside pkg/validate, a method other than MatchString) or contains a numeric literal: then "matches regex X" is
+//     not the whole truth about it.
+//
+// Such a validator is "opaque": no theorem speaks about it. The caller reports that and leaves the Gen files alone.
+func (si srcInfo) unclassified(f format) string {
+	var why []string
+	for _, u := range si.uses {
+		if rn, ok := strings.CutPrefix(u, "regex."); ok && regexByName(rn, f) == nil {
+			why = append(why, "refers to regex."+rn+" which is not a compiled pattern the harness knows")
+		}
+	}
+	if si.validator != "" && strings.HasPrefix(si.kind(), "regex:") {
+		for _, c := range si.foreign {
+			why = append(why, "calls "+c+" besides matching its regex")
+		}
+		for _, x := range si.fp {
+			switch {
+			case strings.HasPrefix(x, "func "), plainRegexCalls[x], strings.HasSuffix(x, ".MatchString"), strings.HasPrefix(x, "\"") || strings.HasPrefix(x, "`"):
+			case strings.Contains(x, "."):
+				why = append(why, "calls "+x+" besides matching its regex")
+			default:
+				why = append(why, "contains the literal "+x+" besides matching its regex")
+			}
+		}
+	}
+	return strings.Join(dedupStrings(why), "; ")
+}
+
+// plainRegexCalls: the selector calls of a validator that only matches a regex.
+var plainRegexCalls = map[string]bool{"reflectx.StringVal": true, "regex.MAC": true, "regex.Datetime": true, "regex.Time": true}
+
+// genLean writes the Gen files. When some validator cannot be classified (see unclassified) it writes NO Gen file — the last
+// good ones stay, so the driver and the certificates of the other formats keep working — and lists the opaque formats in
+// <outDir>/opaque.txt (`<format>\t<reason>`); vlib/c20.py reports them as a broken tie and still runs the correspondence, in
+// which the specification automaton (independent of this translator) judges the real validator.
+func genLean(repo, dir, outDir string) error {
 	info, err := scanSources(repo)
 	if err != nil {
 		return err
+	}
+	var opaque []string
+	for _, f := range formats {
+		if why := info[f.name].unclassified(f); why != "" {
+			opaque = append(opaque, fmt.Sprintf("%s\tvalidate.%s %s", f.name, info[f.name].validator, why))
+		}
+	}
+	if outDir != "" {
+		op := filepath.Join(outDir, "opaque.txt")
+		os.Remove(op)
+		if len(opaque) > 0 {
+			if err := os.WriteFile(op, []byte(strings.Join(opaque, "\n")+"\n"), 0o644); err != nil {
+				return err
+			}
+		}
+	}
+	if len(opaque) > 0 {
+		fmt.Fprintf(os.Stderr, "translator: %d validator(s) not classified (kind opaque); Gen files left as they are:\n%s\n", len(opaque), strings.Join(opaque, "\n"))
+		return nil
 	}
 	var table, imports, tail []string
 	for _, f := range formats {
